@@ -133,7 +133,9 @@ def check(run):
         run.tlc_mc("QCTree.tla", "MC_QCTree_thorough.cfg", workers=14, timeout=1500)
         run.tlc_mc("QCTree.tla", "MC_QCTree_pace.cfg", workers=8, timeout=600)
         res, dump, _ = mc_dump(run, "QCTree.tla", "MC_QCTree.cfg", workers=12, timeout=900)
-    run.tlc_mc("QCSmr.tla", "MC_QCSmr.cfg", workers=8, timeout=900)
+    # Smr level: the chain and one fork of 5 proposals, breadth-first to 5 (quick) / 7 (thorough) handler calls
+    run.tlc_mc("QCSmr.tla", "MC_QCSmr.cfg" if quick else "MC_QCSmr_thorough.cfg", workers=8 if quick else 14, timeout=900)
+    run.cov["model_checks"][-1]["bounded_by_level"] = 5 if quick else 7
     cover = behaviours_from_dump(dump)
     os.remove(dump)
     gen = []
